@@ -60,4 +60,46 @@ theorem one_octet_damage_not_valid (f g : Frame) (hf : FrameInv f) (hg : FrameIn
     rw [eg] at this
     exact absurd this hni
 
+/-- **C01.** Damage confined to two neighbouring octets makes an intact octet string not intact. -/
+theorem intact_two_adjacent_octets_damage (p s : List Nat) (x1 x2 y1 y2 : Nat) (hp : Octets p)
+    (hs : Octets s) (hx1 : x1 < 256) (hx2 : x2 < 256) (hy1 : y1 < 256) (hy2 : y2 < 256)
+    (hne : ¬ (x1 = y1 ∧ x2 = y2)) (hi : Intact (p ++ x1 :: x2 :: s)) :
+    ¬ Intact (p ++ y1 :: y2 :: s) := by
+  intro hi'
+  have oct : ∀ z1 z2, z1 < 256 → z2 < 256 → Octets (p ++ z1 :: z2 :: s) := by
+    intro z1 z2 h1 h2 b hb
+    simp only [List.mem_append, List.mem_cons] at hb
+    rcases hb with hb | hb | hb | hb
+    · exact hp b hb
+    · exact hb ▸ h1
+    · exact hb ▸ h2
+    · exact hs b hb
+  have g1 := intact_isGood _ (oct x1 x2 hx1 hx2) hi
+  have g2 := intact_isGood _ (oct y1 y2 hy1 hy2) hi'
+  have := C03.two_adjacent_octets_damage_detected p s x1 x2 y1 y2 hp hs hx1 hx2 hy1 hy2 hne g1
+  rw [this] at g2
+  cases g2
+
+/-- **C01 (frame level).** A frame object whose octets are those of a valid frame with damage confined to
+    two neighbouring octets is not reported valid. -/
+theorem two_adjacent_octets_damage_not_valid (f g : Frame) (hf : FrameInv f) (hg : FrameInv g)
+    (p s : List Nat) (x1 x2 y1 y2 : Nat) (ef : f.data = p ++ x1 :: x2 :: s)
+    (eg : g.data = p ++ y1 :: y2 :: s) (hne : ¬ (x1 = y1 ∧ x2 = y2)) (hv : f.isValid = true) :
+    g.isValid = false := by
+  have of := hf.2.2
+  have og := hg.2.2
+  rw [ef] at of
+  rw [eg] at og
+  have hp : Octets p := fun b hb => of b (by simp [hb])
+  have hs : Octets s := fun b hb => of b (by simp [hb])
+  have hi : Intact (p ++ x1 :: x2 :: s) := ef ▸ (valid_iff_intact f hf).1 hv
+  have hni := intact_two_adjacent_octets_damage p s x1 x2 y1 y2 hp hs (of x1 (by simp)) (of x2 (by simp))
+    (og y1 (by simp)) (og y2 (by simp)) hne hi
+  cases hgv : g.isValid with
+  | false => rfl
+  | true =>
+    have := (valid_iff_intact g hg).1 hgv
+    rw [eg] at this
+    exact absurd this hni
+
 end Amshan.C01
